@@ -3,6 +3,7 @@
 package main
 
 import (
+	"strings"
 	"bytes"
 	"encoding/json"
 	"fmt"
@@ -314,6 +315,23 @@ func TestC03(t *testing.T) {
 				sum.fail(k, d, &c03Case{Text: string(b), Kind: "repo:" + p})
 				t.Fatalf("%s: %s", k, d)
 			}
+		}
+	}
+	// one fixed text per run (first shard): a sequence of 14 nested groups. Without -cache the
+	// front-end needs seconds and tens of millions of expression evaluations for it (documented:
+	// exponential in the nesting depth) - and accepts it: the documented syntax has no depth or
+	// effort limit. A time limit hit is inconclusive, never a violation.
+	if os.Getenv("VTOOL_SHARD") == "0" {
+		text := "A = " + strings.Repeat("( ", 14) + "'a' / 'b'" + strings.Repeat(" )", 14) + "\n"
+		dir := tmpDir(t)
+		in := filepath.Join(dir, "nested.peg")
+		os.WriteFile(in, []byte(text), 0o644)
+		res := runMain(dir, []string{"-x", in}, nil, 240e9)
+		sum.Tags["nested_14_groups_through_the_command"]++
+		if !res.TimedOut && (res.Panic != "" || (res.Exited && res.Exit != 0)) {
+			d := fmt.Sprintf("pigeon -x on 14 nested groups: exit %d, panic %q: %s", res.Exit, res.Panic, truncT(res.Stderr, 300))
+			sum.fail("x_refused", d, &c03Case{Text: text, Kind: "nested"})
+			t.Fatalf("x_refused: %s", d)
 		}
 	}
 	n := 0
